@@ -803,7 +803,22 @@ func scenario(e *simcore.Env, tp *simcore.Tape, g engine) {
 	for _, u := range units {
 		u.mayHave = true
 	}
+	// the open/closed state of the segments at the quiescent point at which the call has returned (parked
+	// actors, e.g. a rotation task about to reopen every segment, have not run yet)
+	var segsAtReturn []storage.VerifC19Seg
+	if done(snapCh) {
+		segsAtReturn, _ = g.segments(n)
+	} else {
+		for _, p := range simcore.ParkedList() {
+			if p.Actor != "snap" {
+				interference = true
+			}
+		}
+	}
 	drain()
+	if segsAtReturn == nil {
+		segsAtReturn, _ = g.segments(n)
+	}
 	if !done(snapCh) {
 		e.Fail("harness", "snapshot-did-not-return", "the snapshot request did not return after all gates were opened")
 		return
@@ -878,8 +893,7 @@ func scenario(e *simcore.Env, tp *simcore.Tape, g engine) {
 		if interference {
 			e.Probe("reach.closed_segments_with_interference")
 		} else {
-			after, _ := g.segments(n)
-			for _, s := range after {
+			for _, s := range segsAtReturn {
 				if _, was := closedBefore[s.Suffix]; was && s.IndexOpen {
 					e.Fail("closed-stay-closed", "snapshot-reopened-idle-closed-segment", "segment %s was idle-closed before the snapshot request and is open after it (nothing else ran during the call)", s.Suffix)
 					return
